@@ -34,8 +34,8 @@ type QSpec struct {
 	DO      bool     `json:"do,omitempty"`
 	Version uint8    `json:"version,omitempty"`
 	Options []string `json:"options,omitempty"`
-	// Shape: "" well-formed; malformed shapes: qr, noq, 2q, ans, ns, 2extra,
-	// opt+extra; "extraA" is well-formed with one non-OPT additional record.
+	// Shape: "" well-formed; malformed shapes: qr, noq, 2q, ans, ns, 2extra;
+	// "extraA" is well-formed with one non-OPT additional record.
 	Shape string `json:"shape,omitempty"`
 }
 
